@@ -6,9 +6,10 @@ kf['findings']=[f for f in kf['findings'] if f['property']!='C12']
 def add(key,module,site,what,wit=None):
     kf['findings'].append({"property":"C12","key":key,"module":module,"call_site":site,"what_fails":what,"witness":wit or {}})
 svc_site="modules/service/genesis.go ExportGenesis (request contexts exported as stored) vs types.ValidateGenesis (requires State=PAUSED and BatchState=BATCHCOMPLETED); in-flight requests and their escrowed fees are not exported at all"
-for st,how in [("running","a feed, a repeated call or an oracle-seeded random request is running at the export height"),("completed","a request context was killed and its last batch has not expired yet at the export height")]:
+for st,how in [("running","a feed, a repeated call or an oracle-seeded random request is running at the export height"),("completed","a request context was killed and its last batch has not expired yet at the export height"),("batch_running","a request context was paused while its current batch is still awaiting responses at the export height (which offending context the validation names first depends on map iteration order)")]:
     for mode,mod in [("as-is-full","service"),("as-is-isolated","service"),("as-is-isolated","oracle"),("as-is-isolated","random")]:
-        add("C12:import-rejected:%s:%s:panic: invalid request context state, id:#, state:%s"%(mode,mod,st),"service",svc_site,
+        cls = "panic: invalid request context state, id:#, state:%s"%st if st!="batch_running" else "panic: invalid request context batch state, id:#, batchstate:batch_running"
+        add("C12:import-rejected:%s:%s:%s"%(mode,mod,cls),"service",svc_site,
             "as-is export (without the zero-height preparation step) of a chain holding a %s service request context is rejected on import%s; only the PrepForZeroHeightGenesis path re-imports"%(st.upper(),"" if mod=="service" else " (the isolated import of %s carries the service section it depends on)"%mod),
             {"how":how,"error":"invalid request context state, ID:<ctx>, State:%s"%st.upper()})
 htlc_site="modules/htlc/genesis.go InitGenesis checks (ValidateLiveAsset, GetSupplyLimit, supply <= limit) are stricter than MsgUpdateParams, which accepts any structurally valid asset list whatever supplies and open transfers exist"
